@@ -25,9 +25,11 @@
          * job f reads exactly the IFM elements its OFM block depends on: rows
            [y0*stride_y - pad_top, (y1-1)*stride_y - pad_top + dilated kernel height) clipped to the
            IFM (halved under 2x upscaling), the same for columns; channels: the job's depth slice
-           (convolution), the block's own channels (other operations; all channels if the depths
-           differ); binary elementwise operations also read the IFM2 elements of the block's box
-           (broadcast dimensions collapse to index 0);
+           (convolution; also depthwise / pooling operations whose IFM and OFM depths differ, e.g.
+           REDUCE_SUM, whose jobs partition the IFM depth in slices of ofm_depth channels -- the jobs of
+           one OFM block never all read the whole depth), the block's own channels (other operations);
+           binary elementwise operations also read the IFM2 elements of the block's box (broadcast
+           dimensions collapse to index 0);
          * job f of B may run while the b-th last block of A is unfinished only if f + b < k.
        Checked: for all f, b with f + b < k, no byte read by job f of B is written by the b-th last
        block of A; and, at operation level, B's weight / scale reads do not overlap A's OFM and B
@@ -128,8 +130,9 @@ Definition ifm_box (code : Z) (r : regs) (ob : box) (s : Z) : box :=
     let '(y0, y1) := span up (Z.max 0 (b_y0 ob * sy - pt)) (Z.min hup ((b_y1 ob - 1) * sy - pt + kh)) in
     let '(x0, x1) := span up (Z.max 0 (b_x0 ob * sx - pl)) (Z.min wup ((b_x1 ob - 1) * sx - pl + kw)) in
     let '(c0, c1) :=
-      if code =? cmd0_NPU_OP_CONV then (s * slice_depth code r, Z.min (fv_d iv) ((s + 1) * slice_depth code r))
-      else if fv_d iv =? fv_d ov then (b_c0 ob, b_c1 ob) else (0, fv_d iv) in
+      if (code =? cmd0_NPU_OP_CONV) || negb (fv_d iv =? fv_d ov)
+      then (s * slice_depth code r, Z.min (fv_d iv) ((s + 1) * slice_depth code r))
+      else (b_c0 ob, b_c1 ob) in
     Box y0 (Z.min y1 (fv_h iv)) x0 (Z.min x1 (fv_w iv)) c0 c1.
 
 Definition ifm2_box (r : regs) (ob : box) : box :=
